@@ -39,13 +39,24 @@ def make_driver(cfg):
             M = vmp.load(SRCS[0], "windpyutils.parallel.pools")
             fm = M.FunctorMap(f, cfg.workers)
             with fm:
-                for k, (ikind, n, cs) in enumerate(cfg.calls):
+                suspended = []
+                for k, call in enumerate(cfg.calls):
+                    ikind, n, cs = call[:3]
+                    exact = len(call) > 3 and call[3] == "exact"
                     data = data_of(k, n)
                     rec = {"data": data, "yielded": [], "finished": False, "cs": cs}
                     out["calls"].append(rec)
                     inp = vmp.LazyInput(data) if ikind == "lazy" else data
-                    for v in fm(inp, cs):
-                        rec["yielded"].append(v)
+                    if exact:
+                        # the consumer takes exactly len(data) results (zip / islice style) and never asks for more:
+                        # the generator stays suspended at its last yield
+                        gen = fm(inp, cs)
+                        suspended.append(gen)
+                        for _ in range(n):
+                            rec["yielded"].append(next(gen))
+                    else:
+                        for v in fm(inp, cs):
+                            rec["yielded"].append(v)
                     rec["finished"] = True
                     rec["leftover"] = leftovers(s)
         else:
@@ -130,6 +141,8 @@ def plan_for(tier):
     plan.append((Cfg("FM[w2,lazy3]", "fmap", 2, [("lazy", 3, 1)]), 2 if q else 3, 1, None))
     plan.append((Cfg("FM2[w2,n2;n2]", "fmap", 2, [("list", 2, 1), ("list", 2, 1)]), b, 1, None))
     plan.append((Cfg("FM2[w1,n1;n0;n3cs2]", "fmap", 1, [("list", 1, 1), ("list", 0, 1), ("list", 3, 2)]), b, 1, None))
+    plan.append((Cfg("FM2x[w2,n2 exact;n2]", "fmap", 2, [("list", 2, 1, "exact"), ("list", 2, 1)]), b, 1, None))
+    plan.append((Cfg("FM2x[w1,n3cs2 exact;n1;n2]", "fmap", 1, [("list", 3, 2, "exact"), ("list", 1, 1), ("list", 2, 1, "exact")]), b, 1, None))
     plan.append((Cfg("FM[cpu,n2]", "fmap", -1, [("list", 2, 1)], cpu_count=2), 2, 1, None))
     # mul_p_map: W x n, consecutive calls on the shared class-level queues
     plan.append((Cfg("MP[w1,n2]", "mulp", 1, [("list", 2)], cpu_count=1), None if not q else 3, 1, None))
